@@ -18,6 +18,21 @@ pub use ev::Ev;
 pub use model::Model;
 pub use rng::Rng;
 
+/// Root of the repository checkout under test (`/repo`, or `VERIF_REPO` for an isolated run).
+pub fn repo() -> String {
+    std::env::var("VERIF_REPO").unwrap_or_else(|_| "/repo".to_string())
+}
+
+/// Directory evidence / replay files are written to.
+pub fn evidence_dir() -> String {
+    std::env::var("VERIF_EVIDENCE_DIR").unwrap_or_else(|_| "/verif/evidence".to_string())
+}
+
+/// The lake project directory (for table regeneration).
+pub fn lean_dir() -> String {
+    std::env::var("VERIF_LEAN_DIR").unwrap_or_else(|_| "/verif/lean".to_string())
+}
+
 /// Run `f` catching panics; the panic message becomes `Err(msg)`.
 pub fn catch<T>(f: impl FnOnce() -> T) -> Result<T, String> {
     let r = std::panic::catch_unwind(std::panic::AssertUnwindSafe(f));
